@@ -212,7 +212,7 @@ def _get_token_start_idx(doc_str):
                 next_line = doc_str[i : doc_str.find("\n", i)]
                 if next_line.count("-") == len(next_line):
                     return idx - len(stack)
-            elif any(filter(line.startswith, TOKENS_SET)):
+            elif any(filter(line.startswith, TOKENS_SET - NUMPYDOC_TOKENS_SET)):
                 return idx - len(stack)
             stack.clear()
         else:
@@ -237,7 +237,7 @@ def _last_doc_str_token(doc_str):
                 if stack.count("-") == len(stack):
                     if "".join(penultimate_stack) in NUMPYDOC_TOKENS_SET:
                         last_found = i - len(stack) + len(penultimate_stack)
-                elif "".join(stack) in TOKENS_SET:
+                elif "".join(stack) in TOKENS_SET - NUMPYDOC_TOKENS_SET:
                     last_found = i - len(stack)
                 penultimate_stack = stack.copy()
                 stack.clear()
